@@ -33,39 +33,6 @@ Section SexprInd.
     end.
 End SexprInd.
 
-(* ------------------------------------------------------------------ the fragment *)
-Definition is_mul (e : sexpr) : bool := match e with SMul _ _ => true | _ => false end.
-Definition is_rat (e : sexpr) : bool := match e with SRat _ _ => true | _ => false end.
-
-(* what may stand as an ordered factor of a Mul (evaluated sympy trees satisfy this):
-   no Mul directly inside a Mul; x**-1 never has a bare Rational base; the as_base_exp quirk
-   (unit-fraction base with a negative symbolic exponent) is left to the correspondence *)
-Definition factor_ok (f : sexpr) : bool :=
-  negb (is_mul f) &&
-  match f with
-  | SPow b ex =>
-      if negexp ex then
-        match eshape_of false ex with
-        | ENegOne => negb (is_rat b)
-        | _ => negb (is_unit_frac b)
-        end
-      else true
-  | _ => true
-  end.
-
-Fixpoint wf (e : sexpr) : bool :=
-  match e with
-  | SAdd ts => negb (match ts with [] => true | _ => false end) && forallb (fun t => wf t && negb (is_add t)) ts
-  | SMul neg fs => negb (match fs with [] => true | _ => false end) && forallb (fun f => wf f && factor_ok f) fs
-  | SPow b ex => wf b && wf ex
-  | SInt _ => true
-  | SRat p q => (2 <=? q)%Z
-  | SSym name => negb (String.eqb name "E")
-  | SFun name args => known_fun name && match args with [a] => wf a | _ => false end
-  | SE => true
-  | SZoo => false
-  end.
-
 (* ------------------------------------------------------------------ notation for the proof *)
 Definition Tk (flip : bool) (e : sexpr) : list token := pr false flip e.
 Definition Val := table -> env -> R.
@@ -1271,3 +1238,553 @@ Proof.
   - apply parse_tokens_complete. exact Ha.
   - intros tab rho Hd. apply Hv. exact Hd.
 Qed.
+
+(* ================================================================== string level *)
+(* ------------------------------------------------------------------ spaces: strip (pr true) = pr false *)
+Close Scope R_scope.
+
+Lemma strip_app a b : strip (a ++ b) = strip a ++ strip b.
+Proof. induction a as [|t a IH]; simpl; auto. destruct t; simpl; rewrite IH; reflexivity. Qed.
+
+Definition nosp_hd (ts : list token) : Prop := match ts with TSp :: _ => False | _ => True end.
+
+Lemma strip_num z : strip (num_tokens z) = num_tokens z.
+Proof. unfold num_tokens. destruct (z <? 0)%Z; reflexivity. Qed.
+Lemma nosp_num z : nosp_hd (num_tokens z).
+Proof. unfold num_tokens. destruct (z <? 0)%Z; exact I. Qed.
+
+Lemma strip_paren L ts p : strip (paren L (ts, p)) = paren L (strip ts, p).
+Proof. unfold paren. simpl. destruct (p <=? L)%Z; auto. simpl. rewrite strip_app. reflexivity. Qed.
+Lemma nosp_paren L ts p : nosp_hd ts -> nosp_hd (paren L (ts, p)).
+Proof. unfold paren. simpl. destruct (p <=? L)%Z; auto. intros _. exact I. Qed.
+
+Lemma strip_join sep l : strip (join sep l) = join (strip sep) (map strip l).
+Proof.
+  induction l as [|x l IH]; simpl; auto. destruct l as [|y l]; auto.
+  rewrite !strip_app. rewrite IH. reflexivity.
+Qed.
+
+Lemma nosp_app a b : a <> [] -> nosp_hd a -> nosp_hd (a ++ b).
+Proof. destruct a; simpl; auto. congruence. Qed.
+
+Lemma strip_pow sh tb pb te pe :
+  strip (pow_assemble sh (tb, pb) (te, pe)) = pow_assemble sh (strip tb, pb) (strip te, pe).
+Proof.
+  destruct sh; simpl; rewrite ?strip_app; simpl; rewrite ?strip_app, ?strip_paren; simpl;
+    rewrite ?strip_paren; reflexivity.
+Qed.
+Lemma nosp_pow sh tb pb te pe : nosp_hd tb -> nosp_hd (pow_assemble sh (tb, pb) (te, pe)).
+Proof.
+  intros H. destruct sh; simpl; auto.
+  pose proof (nosp_paren P_POW tb pb H) as Hp. destruct (paren P_POW (tb, pb)); simpl in *; auto.
+Qed.
+
+Definition strip_item (it : mitem) : mitem :=
+  match it with
+  | MNum pt => MNum (strip (fst pt), snd pt)
+  | MDen pt w => MDen (strip (fst pt), snd pt) w
+  | MRat p q => MRat p q
+  end.
+Definition strip_pt (pt : list token * Z) : list token * Z := (strip (fst pt), snd pt).
+
+Lemma mul_a_strip l : mul_a (map strip_item l) = map strip_pt (mul_a l).
+Proof.
+  induction l as [|it l IH]; simpl; auto. destruct it as [pt|pt w|p q]; simpl; rewrite IH; auto.
+  destruct (p =? 1)%Z; simpl; auto. unfold strip_pt. simpl. rewrite strip_num. reflexivity.
+Qed.
+Lemma mul_b_strip l : mul_b (map strip_item l) = map (fun pw => (strip_pt (fst pw), snd pw)) (mul_b l).
+Proof.
+  induction l as [|it l IH]; simpl; auto. destruct it as [pt|pt w|p q]; simpl; rewrite IH; auto.
+  destruct (q =? 1)%Z; simpl; auto. unfold strip_pt. simpl. rewrite strip_num. reflexivity.
+Qed.
+
+Lemma strip_den l : strip (den_toks l) = den_toks (map strip l).
+Proof.
+  destruct l as [|d1 [|d2 l]]; try reflexivity.
+  unfold den_toks. cbn [map]. rewrite !strip_app. rewrite strip_join. reflexivity.
+Qed.
+
+Lemma strip_wrapped P pw : strip (wrapped P pw) = wrapped P (strip_pt (fst pw), snd pw).
+Proof.
+  destruct pw as [[t p] w]. unfold wrapped. simpl. destruct w; simpl; rewrite ?strip_app, ?strip_paren; reflexivity.
+Qed.
+
+Lemma strip_mul_body P l : strip (mul_body P l) = mul_body P (map strip_item l).
+Proof.
+  unfold mul_body. rewrite mul_a_strip, mul_b_strip. rewrite strip_app. f_equal.
+  - rewrite strip_join. simpl strip. f_equal. destruct (mul_a l) as [|[t p] ar].
+    + cbn [map]. rewrite strip_paren. reflexivity.
+    + cbn [map]. rewrite strip_paren. f_equal. rewrite !map_map. apply map_ext. intros [t2 p2]. rewrite strip_paren. reflexivity.
+  - rewrite strip_den. f_equal. rewrite !map_map. apply map_ext. intros pw. apply strip_wrapped.
+Qed.
+
+Lemma strip_mul_assemble neg l : strip (mul_assemble neg l) = mul_assemble neg (map strip_item l).
+Proof.
+  rewrite !mul_assemble_body. rewrite strip_app. rewrite strip_mul_body. destruct neg; reflexivity.
+Qed.
+
+(* ------------------------------------------------------------------ token adjacency of the printed list *)
+Definition endp (p : pend) (ts : list token) : pend := fold_left (fun _ t => pend_of t) ts p.
+
+Lemma endp_app p a b : endp p (a ++ b) = endp (endp p a) b.
+Proof. unfold endp. apply fold_left_app. Qed.
+Lemma endp_nonempty p q a : a <> [] -> endp p a = endp q a.
+Proof. destruct a as [|t a]; [congruence|]. intros _. reflexivity. Qed.
+
+Lemma adj_app p a b : adj p (a ++ b) = adj p a && adj (endp p a) b.
+Proof.
+  revert p. induction a as [|t a IH]; intros p; simpl; auto.
+  rewrite IH. rewrite andb_assoc. reflexivity.
+Qed.
+
+Lemma adj_star_any q ts : adj QStar ts = true -> (q = QNone \/ q = QStar) -> adj q ts = true.
+Proof.
+  intros H [-> | ->]; auto. destruct ts as [|t ts]; auto. simpl in *.
+  apply andb_true_iff in H. destruct H as [H H2]. apply andb_true_iff in H. destruct H as [H0 H1].
+  rewrite H1, H2. reflexivity.
+Qed.
+
+Definition Q0 (ts : list token) : Prop :=
+  ts <> [] /\ nosp_hd ts /\ adj QStar ts = true /\ endp QNone ts <> QStar.
+Definition drop_minus (ts : list token) : list token := match ts with TMinus :: r => r | _ => ts end.
+Definition Qs (ts : list token) : Prop := Q0 ts /\ Q0 (drop_minus ts).
+
+Definition sepok (m : list token) : Prop :=
+  m <> [] /\ (forall q, q <> QStar -> adj q m = true) /\ (endp QNone m = QNone \/ endp QNone m = QStar).
+Definition postok (m : list token) : Prop :=
+  (forall q, q <> QStar -> adj q m = true) /\ (m = [] \/ endp QNone m <> QStar).
+
+Lemma Q0_post a post : Q0 a -> postok post -> Q0 (a ++ post).
+Proof.
+  intros (Hne & Hsp & Hadj & Hend) (Hp & Hpe). repeat split.
+  - destruct a; [congruence|discriminate].
+  - apply nosp_app; auto.
+  - rewrite adj_app, Hadj. simpl. apply Hp. rewrite (endp_nonempty QStar QNone) by auto. exact Hend.
+  - rewrite endp_app. destruct Hpe as [-> | Hpe]; [simpl; exact Hend|].
+    destruct post as [|t post]; [simpl; exact Hend|]. rewrite (endp_nonempty _ QNone) by discriminate. exact Hpe.
+Qed.
+
+Lemma Q0_cat a m b : Q0 a -> sepok m -> Q0 b -> Q0 (a ++ m ++ b).
+Proof.
+  intros Ha (Hmne & Hm & Hme) (Hbne & Hbsp & Hbadj & Hbend). apply Q0_post; auto. split.
+  - intros q Hq. rewrite adj_app, (Hm q Hq). simpl. apply adj_star_any; auto.
+    rewrite (endp_nonempty q QNone) by auto. tauto.
+  - right. rewrite endp_app. rewrite (endp_nonempty _ QNone) by auto. exact Hbend.
+Qed.
+
+Lemma Q0_pre pre a : pre <> [] -> nosp_hd pre -> adj QStar pre = true ->
+  (endp QNone pre = QNone \/ endp QNone pre = QStar) -> Q0 a -> Q0 (pre ++ a).
+Proof.
+  intros Hne Hsp Hadj He (Hane & Hasp & Haadj & Haend). repeat split.
+  - destruct pre; [congruence|discriminate].
+  - apply nosp_app; auto.
+  - rewrite adj_app, Hadj. simpl. apply adj_star_any; auto. rewrite (endp_nonempty QStar QNone) by auto. tauto.
+  - rewrite endp_app. rewrite (endp_nonempty _ QNone) by auto. exact Haend.
+Qed.
+
+Lemma Qs_Q0 ts : Qs ts -> Q0 ts. Proof. intros [H _]; exact H. Qed.
+
+Lemma drop_minus_app a b : a <> [] -> drop_minus (a ++ b) = drop_minus a ++ b.
+Proof. destruct a as [|t a]; [congruence|]. intros _. destruct t; reflexivity. Qed.
+
+Lemma Qs_post a post : Qs a -> postok post -> Qs (a ++ post).
+Proof.
+  intros [H1 H2] Hp. split; [apply Q0_post; auto|].
+  rewrite drop_minus_app by (destruct H1; auto). apply Q0_post; auto.
+Qed.
+Lemma Qs_cat a m b : Qs a -> sepok m -> Q0 b -> Qs (a ++ m ++ b).
+Proof.
+  intros [H1 H2] Hm Hb. split; [apply Q0_cat; auto|].
+  rewrite drop_minus_app by (destruct H1; auto). apply Q0_cat; auto.
+Qed.
+Lemma Qs_pre pre a : pre <> [] -> nosp_hd pre -> adj QStar pre = true -> hd_not is_minus pre ->
+  (endp QNone pre = QNone \/ endp QNone pre = QStar) -> Q0 a -> Qs (pre ++ a).
+Proof.
+  intros Hne Hsp Hadj Hm He Ha.
+  assert (H : Q0 (pre ++ a)) by (apply Q0_pre; auto). split; auto.
+  destruct pre as [|t pre]; [congruence|]. destruct t; simpl in Hm; try discriminate; exact H.
+Qed.
+Lemma Qs_neg a : Q0 a -> Qs (TMinus :: a).
+Proof.
+  intros Ha. split; [|exact Ha]. apply (Q0_pre [TMinus] a); auto; try discriminate; try exact I.
+Qed.
+
+(* concrete separators *)
+Ltac sepok_tac := split; [discriminate|split; [intros q Hq; destruct q; try reflexivity; congruence | simpl; auto]].
+Lemma sep_star : sepok [TStar]. Proof. sepok_tac. Qed.
+Lemma sep_slash : sepok [TSlash]. Proof. sepok_tac. Qed.
+Lemma sep_pow : sepok [TPow]. Proof. sepok_tac. Qed.
+Lemma sep_comma : sepok [TComma]. Proof. sepok_tac. Qed.
+Lemma sep_commasp : sepok [TComma; TSp]. Proof. sepok_tac. Qed.
+Lemma sep_slashlp : sepok [TSlash; TLp]. Proof. sepok_tac. Qed.
+Lemma sep_plus : sepok [TSp; TPlus; TSp]. Proof. sepok_tac. Qed.
+Lemma sep_minus : sepok [TSp; TMinus; TSp]. Proof. sepok_tac. Qed.
+Lemma post_rp : postok [TRp].
+Proof. split; [intros q Hq; destruct q; try reflexivity; congruence | right; discriminate]. Qed.
+Lemma post_nil : postok [].
+Proof. split; [reflexivity | left; reflexivity]. Qed.
+
+Lemma Qs_parens a : Q0 a -> Qs ([TLp] ++ a ++ [TRp]).
+Proof.
+  intros Ha. apply (Qs_pre [TLp]); auto; try discriminate; try exact I; try reflexivity.
+  apply Q0_post; auto. apply post_rp.
+Qed.
+
+Lemma Qs_paren L ts p : Qs ts -> Qs (paren L (ts, p)).
+Proof. intros H. unfold paren. simpl. destruct (p <=? L)%Z; auto. apply Qs_parens, Qs_Q0, H. Qed.
+
+Lemma Qs_num z : Qs (num_tokens z).
+Proof.
+  unfold num_tokens. destruct (z <? 0)%Z.
+  - apply Qs_neg. repeat split; try discriminate; exact I.
+  - split; repeat split; try discriminate; exact I.
+Qed.
+
+Lemma Q0_join m l : sepok m -> l <> [] -> Forall Q0 l -> Q0 (join m l).
+Proof.
+  intros Hm Hne HF. induction HF as [|x l Hx Hl IH]; [congruence|].
+  destruct l as [|y l]; [exact Hx|].
+  change (join m (x :: y :: l)) with (x ++ m ++ join m (y :: l)). apply Q0_cat; auto. apply IH. discriminate.
+Qed.
+Lemma Qs_join m x l : sepok m -> Qs x -> Forall Q0 l -> Qs (join m (x :: l)).
+Proof.
+  intros Hm Hx Hl. destruct l as [|y l]; [exact Hx|].
+  change (join m (x :: y :: l)) with (x ++ m ++ join m (y :: l)). apply Qs_cat; auto.
+  apply Q0_join; auto. discriminate.
+Qed.
+
+Lemma Qs_pow sh tb pb te pe : Qs tb -> Qs te -> Qs (pow_assemble sh (tb, pb) (te, pe)).
+Proof.
+  intros Hb He. pose proof (Qs_paren P_POW tb pb Hb) as Hpb. pose proof (Qs_paren P_POW te pe He) as Hpe.
+  destruct sh; unfold pow_assemble; cbn [fst snd].
+  - apply (Qs_pre [TName "sqrt"; TLp]); try discriminate; try exact I; try reflexivity; auto.
+    apply Q0_post; [apply Qs_Q0; auto|apply post_rp].
+  - apply (Qs_pre [TNum 1%N; TSlash; TName "sqrt"; TLp]); try discriminate; try exact I; try reflexivity; auto.
+    apply Q0_post; [apply Qs_Q0; auto|apply post_rp].
+  - apply (Qs_pre [TNum 1%N; TSlash]); try discriminate; try exact I; try reflexivity; auto. apply Qs_Q0; auto.
+  - apply Qs_cat; auto. apply sep_pow. apply Qs_Q0; auto.
+  - apply (Qs_pre [TName "pow"; TLp]); try discriminate; try exact I; try reflexivity; auto.
+    apply Q0_cat; [apply Qs_Q0; auto|apply sep_comma|]. apply Q0_post; [apply Qs_Q0; auto|apply post_rp].
+Qed.
+
+Definition item_Qs (it : mitem) : Prop :=
+  match it with MNum pt => Qs (fst pt) | MDen pt _ => Qs (fst pt) | MRat _ _ => True end.
+
+Lemma mul_a_Qs l : Forall item_Qs l -> Forall (fun pt : list token * Z => Qs (fst pt)) (mul_a l).
+Proof.
+  induction 1 as [|it l Hi Hl IH]; simpl; auto. destruct it as [pt|pt w|p q]; simpl in *; auto.
+  destruct (p =? 1)%Z; simpl; auto. constructor; auto. simpl. apply Qs_num.
+Qed.
+Lemma mul_b_Qs l : Forall item_Qs l -> Forall (fun pw : list token * Z * bool => Qs (fst (fst pw))) (mul_b l).
+Proof.
+  induction 1 as [|it l Hi Hl IH]; simpl; auto. destruct it as [pt|pt w|p q]; simpl in *; auto.
+  destruct (q =? 1)%Z; simpl; auto. constructor; auto. simpl. apply Qs_num.
+Qed.
+
+Lemma Qs_wrapped P pw : Qs (fst (fst pw)) -> Qs (wrapped P pw).
+Proof.
+  destruct pw as [[t p] w]. simpl. intros H. unfold wrapped. cbn [fst snd].
+  pose proof (Qs_paren P t p H) as Hp. destruct w; auto. apply Qs_parens, Qs_Q0, Hp.
+Qed.
+
+Lemma Qs_mul_body P l : Forall item_Qs l -> Qs (mul_body P l).
+Proof.
+  intros H. unfold mul_body.
+  assert (Ha : exists x la, map (paren P) match mul_a l with [] => [([TNum 1%N], P_ATOM)] | a0 :: ar => a0 :: ar end = x :: la
+                            /\ Qs x /\ Forall Q0 la).
+  { pose proof (mul_a_Qs l H) as HA. destruct (mul_a l) as [|[t p] ar].
+    - exists (paren P ([TNum 1%N], P_ATOM)), []. split; [reflexivity|]. split; [|constructor].
+      apply Qs_paren. split; repeat split; try discriminate; exact I.
+    - inversion HA as [|? ? H1 H2]; subst. exists (paren P (t, p)), (map (paren P) ar). split; [reflexivity|].
+      split; [apply Qs_paren; auto|]. apply Forall_forall. intros y Hy. apply in_map_iff in Hy.
+      destruct Hy as ([t2 p2] & <- & Hin). rewrite Forall_forall in H2. apply Qs_Q0, Qs_paren. apply (H2 _ Hin). }
+  destruct Ha as (x & la & -> & Hx & Hla).
+  pose proof (Qs_join [TStar] x la sep_star Hx Hla) as HJ.
+  pose proof (mul_b_Qs l H) as HB.
+  assert (HBw : Forall Qs (map (wrapped P) (mul_b l))).
+  { apply Forall_forall. intros y Hy. apply in_map_iff in Hy. destruct Hy as (pw & <- & Hin).
+    rewrite Forall_forall in HB. apply Qs_wrapped. apply (HB _ Hin). }
+  destruct (map (wrapped P) (mul_b l)) as [|d1 [|d2 lb]].
+  - simpl. rewrite app_nil_r. exact HJ.
+  - change (den_toks [d1]) with ([TSlash] ++ d1). inversion HBw; subst. apply Qs_cat; auto. apply sep_slash. apply Qs_Q0; auto.
+  - change (den_toks (d1 :: d2 :: lb)) with ([TSlash; TLp] ++ (join [TStar] (d1 :: d2 :: lb) ++ [TRp])).
+    apply Qs_cat; auto. apply sep_slashlp. apply Q0_post; [|apply post_rp].
+    apply Q0_join; [apply sep_star|discriminate|]. eapply Forall_impl; [|exact HBw]. intros a. apply Qs_Q0.
+Qed.
+
+Lemma Qs_mul_assemble neg l : Forall item_Qs l -> Qs (mul_assemble neg l).
+Proof.
+  intros H. rewrite mul_assemble_body. destruct neg; simpl app.
+  - apply Qs_neg, Qs_Q0, Qs_mul_body, H.
+  - apply Qs_mul_body, H.
+Qed.
+
+(* _print_Add *)
+Lemma split_sign_drop t : snd (split_sign t) = drop_minus t.
+Proof. destruct t as [|x r]; auto. destruct x; reflexivity. Qed.
+
+Lemma add_item_Q0 tw : Qs (fst tw) -> Q0 (snd (add_item tw)).
+Proof.
+  destruct tw as [t w]. simpl. intros [H1 H2]. unfold add_item. simpl.
+  pose proof (split_sign_drop t) as E. destruct (split_sign t) as [s body]. simpl in *. subst body.
+  destruct w; auto. apply Qs_Q0, Qs_parens. exact H2.
+Qed.
+
+Lemma add_tail_Qs items : Forall (fun sb : bool * list token => Q0 (snd sb)) items ->
+  forall a, Qs a -> Qs (a ++ add_tail true items).
+Proof.
+  induction 1 as [|[s body] items Hb Hi IH]; intros a Ha; simpl.
+  - rewrite app_nil_r. exact Ha.
+  - simpl in Hb.
+    replace (a ++ TSp :: (if s then TMinus else TPlus) :: TSp :: body ++ add_tail true items)
+      with ((a ++ [TSp; if s then TMinus else TPlus; TSp] ++ body) ++ add_tail true items)
+      by (rewrite <- !app_assoc; reflexivity).
+    apply IH. apply Qs_cat; auto. destruct s; [apply sep_minus|apply sep_plus].
+Qed.
+
+Lemma Qs_add_join l : l <> [] -> Forall (fun tw : list token * bool => Qs (fst tw)) l -> Qs (add_join true l).
+Proof.
+  intros Hne HF. destruct l as [|tw l]; [congruence|]. inversion HF as [|? ? H1 H2]; subst.
+  unfold add_join. simpl map.
+  assert (Hfirst : Qs ((if fst (add_item tw) then [TMinus] else []) ++ snd (add_item tw))).
+  { pose proof (add_item_Q0 tw H1) as HQ. destruct tw as [t w]. unfold add_item in *. simpl in *.
+    pose proof (split_sign_drop t) as E. destruct (split_sign t) as [s body] eqn:Es. simpl in *.
+    destruct s.
+    - apply Qs_neg. exact HQ.
+    - simpl. destruct w; [apply Qs_parens; subst body; destruct H1; auto|].
+      assert (Hbt : body = t) by (destruct t as [|x r]; [inversion Es; auto|destruct x; inversion Es; auto]).
+      rewrite Hbt. exact H1. }
+  destruct (add_item tw) as [s body]. simpl in Hfirst.
+  rewrite app_assoc. apply add_tail_Qs; auto.
+  apply Forall_forall. intros sb Hin. apply in_map_iff in Hin. destruct Hin as (tw2 & <- & Hin2).
+  rewrite Forall_forall in H2. apply add_item_Q0. apply (H2 _ Hin2).
+Qed.
+
+Definition PrT (fl : bool) (x : sexpr) : list token := pr true fl x.
+
+Definition R_all (e : sexpr) : Prop :=
+  wf e = true -> names_ok e = true -> (forall flip, Qs (PrT flip e)) /\ item_Qs (item_of PrT e).
+
+Lemma Qs_name s : ident_ok s = true -> Qs [TName s].
+Proof.
+  intros H. assert (Q0 [TName s]).
+  { repeat split; try discriminate; try exact I. simpl. rewrite H. reflexivity. }
+  split; auto.
+Qed.
+
+Theorem adjacency_all : forall e, R_all e.
+Proof.
+  induction e using sexpr_ind'; red; intros Hwf Hn.
+  - (* Add *)
+    simpl in Hwf, Hn. apply andb_true_iff in Hwf. destruct Hwf as [Hne Hall].
+    apply forallb_Forall in Hall. apply forallb_Forall in Hn.
+    assert (HQ : forall flip, Qs (PrT flip (SAdd ts))).
+    { intros flip. unfold PrT. cbn [pr]. apply Qs_add_join.
+      - destruct ts; [discriminate|discriminate].
+      - apply Forall_forall. intros tw Hin. apply in_map_iff in Hin. destruct Hin as (t & <- & Hin). simpl.
+        rewrite Forall_forall in *. specialize (Hall t Hin). simpl in Hall. apply andb_true_iff in Hall.
+        destruct (H t Hin (proj1 Hall) (Hn t Hin)) as [HQ _]. apply (HQ false). }
+    split; auto. simpl. apply (HQ false).
+  - (* Mul *)
+    simpl in Hwf, Hn. apply andb_true_iff in Hwf. destruct Hwf as [Hne Hall].
+    apply forallb_Forall in Hall. apply forallb_Forall in Hn.
+    assert (Hsub : forall f, In f fs -> (forall flip, Qs (PrT flip f)) /\ item_Qs (item_of PrT f)).
+    { intros f Hin. rewrite Forall_forall in *. specialize (Hall f Hin). simpl in Hall. apply andb_true_iff in Hall.
+      apply (H f Hin (proj1 Hall) (Hn f Hin)). }
+    assert (HQ : forall flip, Qs (PrT flip (SMul neg fs))).
+    { intros flip. unfold PrT. cbn [pr]. destruct (flip && is_single fs) eqn:Efs.
+      - destruct fs as [|f [|f2 fs]]; try (apply andb_true_iff in Efs; destruct Efs; discriminate).
+        apply (proj1 (Hsub f (or_introl eq_refl)) false).
+      - apply Qs_mul_assemble. apply Forall_forall. intros it Hin. apply in_map_iff in Hin.
+        destruct Hin as (f & <- & Hin). apply (proj2 (Hsub f Hin)). }
+    split; auto. simpl. apply (HQ false).
+  - (* Pow *)
+    simpl in Hwf, Hn. apply andb_true_iff in Hwf. destruct Hwf as [Hwb Hwx].
+    apply andb_true_iff in Hn. destruct Hn as [Hnb Hnx].
+    destruct (IHe1 Hwb Hnb) as [Qb _]. destruct (IHe2 Hwx Hnx) as [Qx _].
+    split.
+    + intros flip. unfold PrT. cbn [pr]. apply Qs_pow; [apply (Qb false)|apply (Qx false)].
+    + unfold item_of. destruct (negexp e2).
+      * destruct (eshape_of false e2);
+          try (destruct (is_unit_frac e1); cbn [item_Qs fst]; apply Qs_pow;
+               first [apply Qs_num | apply (Qb false) | apply (Qx false) | apply (Qx true)]).
+        cbn [item_Qs fst]. apply (Qb false).
+      * cbn [item_Qs fst]. apply Qs_pow; [apply (Qb false)|apply (Qx false)].
+  - split; [intros flip; unfold PrT; simpl; apply Qs_num | exact I].
+  - split; [|exact I]. intros flip. unfold PrT. cbn [pr].
+    apply Qs_cat; [apply Qs_num|apply sep_slash|apply Qs_Q0, Qs_num].
+  - simpl in Hn. split; [intros flip|]; simpl; apply Qs_name; auto.
+  - (* Fun *)
+    simpl in Hwf, Hn. apply andb_true_iff in Hwf. destruct Hwf as [Hk Ha].
+    destruct args as [|a [|a2 args]]; try discriminate.
+    apply andb_true_iff in Hn. destruct Hn as [Hid Hna]. simpl in Hna. rewrite andb_true_r in Hna.
+    inversion H; subst. destruct (H2 Ha Hna) as [Qa _].
+    assert (HQ : forall flip, Qs (PrT flip (SFun s [a]))).
+    { intros flip. unfold PrT. cbn [pr map join].
+      apply (Qs_pre [TName s; TLp]).
+      - discriminate.
+      - exact I.
+      - simpl. rewrite Hid. reflexivity.
+      - reflexivity.
+      - left. reflexivity.
+      - apply Q0_post; [apply Qs_Q0, (Qa false)|apply post_rp]. }
+    split; auto. simpl. apply (HQ false).
+  - split; [intros flip|]; simpl; apply Qs_name; reflexivity.
+  - discriminate.
+Qed.
+
+(* ------------------------------------------------------------------ strip (pr true) = pr false *)
+Lemma split_sign_strip t : nosp_hd t -> split_sign (strip t) = (fst (split_sign t), strip (snd (split_sign t))).
+Proof. destruct t as [|x r]; simpl; auto. destruct x; simpl; auto. tauto. Qed.
+
+Lemma add_item_strip tw : nosp_hd (fst tw) ->
+  add_item (strip (fst tw), snd tw) = (fst (add_item tw), strip (snd (add_item tw))).
+Proof.
+  destruct tw as [t w]. simpl. intros H. unfold add_item. simpl. rewrite split_sign_strip by auto.
+  destruct (split_sign t) as [s body]. simpl. destruct w; simpl; auto. rewrite strip_app. simpl. reflexivity.
+Qed.
+
+Lemma add_tail_strip items :
+  strip (add_tail true items) = add_tail false (map (fun sb : bool * list token => (fst sb, strip (snd sb))) items).
+Proof.
+  induction items as [|[s body] items IH]; simpl; auto.
+  destruct s; simpl; rewrite strip_app, IH; reflexivity.
+Qed.
+
+Lemma strip_add_join l : Forall (fun tw : list token * bool => nosp_hd (fst tw)) l ->
+  strip (add_join true l) = add_join false (map (fun tw : list token * bool => (strip (fst tw), snd tw)) l).
+Proof.
+  intros HF. unfold add_join. rewrite map_map.
+  assert (E : map (fun x : list token * bool => add_item (strip (fst x), snd x)) l =
+              map (fun sb : bool * list token => (fst sb, strip (snd sb))) (map add_item l)).
+  { rewrite map_map. apply map_ext_in. intros tw Hin. rewrite Forall_forall in HF. apply add_item_strip. auto. }
+  rewrite E. destruct (map add_item l) as [|[s body] items]; simpl; auto.
+  rewrite !strip_app, add_tail_strip. destruct s; reflexivity.
+Qed.
+
+Definition S_all (e : sexpr) : Prop :=
+  wf e = true -> names_ok e = true ->
+  (forall flip, strip (PrT flip e) = Tk flip e) /\ strip_item (item_of PrT e) = item_of Tk e.
+
+Lemma Qs_nosp ts : Qs ts -> nosp_hd ts.
+Proof. intros [(_ & H & _) _]. exact H. Qed.
+
+Theorem strip_all : forall e, S_all e.
+Proof.
+  induction e using sexpr_ind'; red; intros Hwf Hn.
+  - (* Add *)
+    assert (HS : forall flip, strip (PrT flip (SAdd ts)) = Tk flip (SAdd ts)).
+    { intros flip. unfold PrT, Tk. cbn [pr]. rewrite strip_add_join.
+      - f_equal. rewrite map_map. apply map_ext_in. intros t Hin. simpl.
+        simpl in Hwf, Hn. apply andb_true_iff in Hwf. destruct Hwf as [_ Hall].
+        apply forallb_Forall in Hall. apply forallb_Forall in Hn. rewrite Forall_forall in *.
+        specialize (Hall t Hin). simpl in Hall. apply andb_true_iff in Hall.
+        destruct (H t Hin (proj1 Hall) (Hn t Hin)) as [HS _]. pose proof (HS false) as E. unfold PrT, Tk in E. rewrite E. reflexivity.
+      - apply Forall_forall. intros tw Hin. apply in_map_iff in Hin. destruct Hin as (t & <- & Hin). simpl.
+        simpl in Hwf, Hn. apply andb_true_iff in Hwf. destruct Hwf as [_ Hall].
+        apply forallb_Forall in Hall. apply forallb_Forall in Hn. rewrite Forall_forall in *.
+        specialize (Hall t Hin). simpl in Hall. apply andb_true_iff in Hall.
+        apply Qs_nosp. apply (proj1 (adjacency_all t (proj1 Hall) (Hn t Hin)) false). }
+    split; auto. simpl. unfold strip_pt. simpl. rewrite (HS false). reflexivity.
+  - (* Mul *)
+    simpl in Hwf, Hn. apply andb_true_iff in Hwf. destruct Hwf as [Hne Hall].
+    apply forallb_Forall in Hall. apply forallb_Forall in Hn.
+    assert (Hsub : forall f, In f fs -> (forall flip, strip (PrT flip f) = Tk flip f) /\ strip_item (item_of PrT f) = item_of Tk f).
+    { intros f Hin. rewrite Forall_forall in *. specialize (Hall f Hin). simpl in Hall. apply andb_true_iff in Hall.
+      apply (H f Hin (proj1 Hall) (Hn f Hin)). }
+    assert (HS : forall flip, strip (PrT flip (SMul neg fs)) = Tk flip (SMul neg fs)).
+    { intros flip. unfold PrT, Tk. cbn [pr]. destruct (flip && is_single fs) eqn:Efs.
+      - destruct fs as [|f [|f2 fs]]; auto. apply (proj1 (Hsub f (or_introl eq_refl)) false).
+      - rewrite strip_mul_assemble. f_equal. rewrite map_map. apply map_ext_in. intros f Hin.
+        apply (proj2 (Hsub f Hin)). }
+    split; auto. simpl. rewrite (HS false). reflexivity.
+  - (* Pow *)
+    simpl in Hwf, Hn. apply andb_true_iff in Hwf. destruct Hwf as [Hwb Hwx].
+    apply andb_true_iff in Hn. destruct Hn as [Hnb Hnx].
+    destruct (IHe1 Hwb Hnb) as [Sb _]. destruct (IHe2 Hwx Hnx) as [Sx _].
+    split.
+    + intros flip. unfold PrT, Tk. cbn [pr]. rewrite strip_pow. fold (PrT false e1). fold (PrT false e2).
+      rewrite (Sb false), (Sx false). reflexivity.
+    + unfold item_of. destruct (negexp e2).
+      * destruct (eshape_of false e2); try (destruct (is_unit_frac e1));
+          cbn [strip_item fst snd]; rewrite ?strip_pow, ?strip_num, ?(Sb false), ?(Sx false), ?(Sx true); reflexivity.
+      * cbn [strip_item fst snd]. rewrite strip_pow, (Sb false), (Sx false). reflexivity.
+  - split; [intros flip; unfold PrT, Tk; simpl; apply strip_num | reflexivity].
+  - split; [|reflexivity]. intros flip. unfold PrT, Tk. cbn [pr]. rewrite !strip_app, !strip_num. reflexivity.
+  - split; [intros flip|]; reflexivity.
+  - (* Fun *)
+    simpl in Hwf, Hn. apply andb_true_iff in Hwf. destruct Hwf as [Hk Ha].
+    destruct args as [|a [|a2 args]]; try discriminate.
+    apply andb_true_iff in Hn. destruct Hn as [Hid Hna]. simpl in Hna. rewrite andb_true_r in Hna.
+    inversion H; subst. destruct (H2 Ha Hna) as [Sa _].
+    assert (HS : forall flip, strip (PrT flip (SFun s [a])) = Tk flip (SFun s [a])).
+    { intros flip. unfold PrT, Tk. cbn [pr map join].
+      change (strip ([TName s; TLp] ++ pr true false a ++ [TRp])) with (TName s :: TLp :: strip (PrT false a ++ [TRp])).
+      rewrite strip_app, (Sa false). reflexivity. }
+    split; auto. cbn [item_of strip_item fst snd]. rewrite (HS false). reflexivity.
+  - split; [intros flip|]; reflexivity.
+  - discriminate.
+Qed.
+
+(* ------------------------------------------------------------------ the theorems of C12 (string level) *)
+Theorem lex_print e : fragment e = true -> lex (print_string e) = Some (toks e).
+Proof.
+  intros H. apply andb_true_iff in H. destruct H as [Hwf Hn].
+  destruct (adjacency_all e Hwf Hn) as [HQ _]. destruct (strip_all e Hwf Hn) as [HS _].
+  specialize (HQ false). specialize (HS false). destruct HQ as [(_ & _ & Hadj & _) _].
+  unfold lex, print_string, print. change LNone with (st_of QNone).
+  rewrite lex_render by (apply adj_star_any; auto). simpl. f_equal. exact HS.
+Qed.
+
+Theorem print_roundtrip e : fragment e = true ->
+  exists a, parse_string (print_string e) = Some a /\
+            forall tab rho, defined rho e -> peval tab rho a = sem rho e.
+Proof.
+  intros H. pose proof (lex_print e H) as HL. apply andb_true_iff in H. destruct H as [Hwf Hn].
+  destruct (parse_print e Hwf) as (a & Ha & Hv). exists a. split; auto.
+  unfold parse_string. rewrite HL. exact Ha.
+Qed.
+
+(* printing is a function of the tree: equal trees print to equal strings *)
+Theorem print_pure e1 e2 : e1 = e2 -> print_string e1 = print_string e2.
+Proof. intros ->. reflexivity. Qed.
+
+(* the parsed side is also well defined: restated for one table at a time for the record *)
+Corollary print_roundtrip_gen e rho : fragment e = true -> defined rho e ->
+  exists a, parse_string (print_string e) = Some a /\ peval GenTab rho a = sem rho e /\ peval FitTab rho a = sem rho e.
+Proof.
+  intros H Hd. destruct (print_roundtrip e H) as (a & Ha & Hv). exists a. split; auto.
+Qed.
+
+(* ------------------------------------------------------------------ outside the fragment: the unevaluated nested Add *)
+(* ESRPrinter._print_Add strips a leading '-' from every printed term, also when the term is itself an Add
+   (sympy's StrPrinter has "and not term.is_Add" there): the unevaluated tree  x + (-a0 + a1)  prints as
+   "x - (a0 + a1)".  Evaluated sympy trees never contain an Add directly inside an Add. *)
+Definition nested_add_example : sexpr :=
+  SAdd [SSym "x"; SAdd [SMul true [SSym "a0"]; SSym "a1"]].
+Definition nested_add_env : env := fun s => if String.eqb s "a1" then 1%R else 0%R.
+
+Lemma nested_add_misprint :
+  print_string nested_add_example = "x - (a0 + a1)"%string /\
+  exists a, parse_string (print_string nested_add_example) = Some a /\
+            defined nested_add_env nested_add_example /\
+            peval GenTab nested_add_env a <> sem nested_add_env nested_add_example /\
+            peval FitTab nested_add_env a <> sem nested_add_env nested_add_example.
+Proof.
+  split; [vm_compute; reflexivity|].
+  exists (PBin OSub (PName "x") (PBin OAdd (PName "a0") (PName "a1"))).
+  split; [vm_compute; reflexivity|]. split; [simpl; tauto|].
+  unfold nested_add_env. simpl. split; lra.
+Qed.
+
+(* non-vacuity: a member of the fragment with a sign, a rational coefficient, a quotient and a sum in a power *)
+Definition sample_expr : sexpr :=
+  SMul true [SRat 1 2; SSym "x"; SPow (SAdd [SSym "a0"; SSym "x"]) (SInt (-1)); SPow (SSym "x") (SMul true [SSym "a0"])].
+Definition sample_env : env := fun s => if String.eqb s "x" then 2%R else 1%R.
+
+Lemma sample_in_fragment : fragment sample_expr = true.
+Proof. vm_compute. reflexivity. Qed.
+Lemma sample_prints : print_string sample_expr = "-x/(2*(a0 + x)*pow(x,a0))"%string.
+Proof. vm_compute. reflexivity. Qed.
+Lemma sample_defined : defined sample_env sample_expr.
+Proof. unfold sample_env. simpl. repeat split; try lra; intros _; lra. Qed.
